@@ -8,7 +8,7 @@ import operator
 
 import z3
 
-from .interp import (BoundMethod, Cls, ExtRef, Func, Infeasible, Module, Obj, OutsideSubset, Path, PyRaise, Sym, Val,
+from .interp import (BoundMethod, Cls, ExtRef, Func, Infeasible, Module, PathEnd, Obj, OutsideSubset, Path, PyRaise, Sym, Val,
                      World, _Break, _Continue, _Return)
 
 _BINOPS = {ast.Add: operator.add, ast.Sub: operator.sub, ast.Mult: operator.mul, ast.Div: operator.truediv,
@@ -44,6 +44,22 @@ class SymSeq:
     def extend(self, xs):
         k = xs.n if isinstance(xs, SymSeq) else len(xs)
         self.n = z3.simplify(self.n + k)
+
+
+class LoopSpec:
+    """Sidecar loop contract: `vars` are the names the loop modifies (name -> kind, or name -> callable(it) creating a
+    fresh value); `inv(it, env, idx)` returns the z3 invariant (idx: z3 int, the number of completed iterations for a
+    `for ... in range(n)` loop, None for a while loop); optional `variant(it, env)` (z3 int, must decrease, >= 0)."""
+
+    def __init__(self, vars, inv, variant=None):
+        self.vars, self.inv, self.variant = vars, inv, variant
+
+    def havoc(self, it, env, tag):
+        for name, kind in self.vars.items():
+            if callable(kind):
+                env[name] = kind(it, env.get(name), tag)
+            else:
+                env[name] = it.w.fresh(f"{name}@{tag}", kind)
 
 
 class ModuleRef:
@@ -946,13 +962,34 @@ class Interp:
         fn = env.get("__fn__", "?")
         return s
 
+    def oblige(self, label, formula):
+        self.obligations.append((label, list(self.p.pc), formula))
+
     def exec_for(self, s, env):
         it = self.eval(s.iter, env)
         seq = self.concrete_iter(it)
         if seq is None:
             spec = self.loop_specs.get(("for", ast.unparse(s.iter), ast.unparse(s.target)))
-            if spec is not None:
-                spec(self, s, env, it)
+            if spec is not None and isinstance(it, SymRange) and isinstance(s.target, ast.Name):
+                n = it.n
+                tag = f"L{len(self.obligations)}"
+                self.oblige(f"invariant holds on entry of `for {ast.unparse(s.target)} in {ast.unparse(s.iter)}`", spec.inv(self, env, z3.IntVal(0)))
+                # arbitrary iteration
+                saved = dict(env)
+                spec.havoc(self, env, tag + "a")
+                i = self.w.fresh(f"{s.target.id}@{tag}", "int")
+                self.p.pc.append(z3.And(i.e >= 0, i.e < n))
+                self.p.pc.append(spec.inv(self, env, i.e))
+                env[s.target.id] = i
+                try:
+                    self.exec_block(s.body, env)
+                except (_Break, _Continue):
+                    raise OutsideSubset("break/continue inside a loop with an invariant")
+                self.oblige(f"invariant preserved by `for {ast.unparse(s.target)} in {ast.unparse(s.iter)}`", spec.inv(self, env, i.e + 1))
+                # after the loop
+                spec.havoc(self, env, tag + "z")
+                self.p.pc.append(spec.inv(self, env, z3.If(n > 0, n, 0)))
+                env[s.target.id] = self.w.fresh(f"{s.target.id}@{tag}end", "int")
                 return
             self.summarise_loop(s, env, [it])
             return
@@ -972,7 +1009,29 @@ class Interp:
     def exec_while(self, s, env):
         spec = self.loop_specs.get(("while", ast.unparse(s.test)))
         if spec is not None:
-            spec(self, s, env, None)
+            tag = f"W{len(self.obligations)}"
+            self.oblige(f"invariant holds on entry of `while {ast.unparse(s.test)}`", spec.inv(self, env, None))
+            spec.havoc(self, env, tag + "a")
+            self.p.pc.append(spec.inv(self, env, None))
+            # the loop exits here (guard false) on one path, runs an arbitrary iteration on the other
+            if self.truth(self.eval(s.test, env)):
+                v0 = spec.variant(self, env) if spec.variant else None
+                broke = False
+                try:
+                    self.exec_block(s.body, env)
+                except _Break:
+                    broke = True
+                except _Continue:
+                    pass
+                if not broke:
+                    self.oblige(f"invariant preserved by `while {ast.unparse(s.test)}`", spec.inv(self, env, None))
+                    if v0 is not None:
+                        v1 = spec.variant(self, env)
+                        self.oblige(f"variant of `while {ast.unparse(s.test)}` decreases and is bounded", z3.And(v1 < v0, v0 >= 0))
+                    # this path re-enters the loop: it is covered by the arbitrary iteration; stop it here
+                    raise PathEnd()
+                # break: continue after the loop with the current state
+                return
             return
         # concrete loops are simply executed (bounded), symbolic ones summarised
         n = 0
